@@ -52,17 +52,91 @@ theorem indentStart_headNot_blank {R : List Tok} (h : IndentStart R) :
   apply headNot_cons
   rw [hk]; simp
 
-/-- the last paragraph (if there is one) is followed by at least one blank / comment line; with
-    `parasTermR` the first of them is a blank line -/
-def parasClosed (ps : List (ParaS × List Gap)) : Prop := ∀ pg, ps.getLast? = some pg → pg.2 ≠ []
+/-! ### an INDENT token after a comment line inside a paragraph -/
+
+def _root_.Deb822Verif.Spec.PItem.isComment : PItem → Bool
+  | .comment _ _ => true
+  | .entry _ => false
+
+/-- the list of items ends with a comment line -/
+def endsComment (is : List PItem) : Prop := is.getLast?.map PItem.isComment = some true
+
+theorem headNot_items_cons (i : PItem) (is : List PItem) (rest : List Tok) :
+    HeadNot [.INDENT] (itemsToks (i :: is) ++ rest) := by
+  cases i with
+  | comment t nl =>
+    simp only [itemsToks_cons, PItem.toks, List.cons_append]; exact headNot_cons _ _ _ (by simp)
+  | entry e =>
+    simp only [itemsToks_cons, PItem.toks, EntryS.toks, List.cons_append]
+    exact headNot_cons _ _ _ (by simp)
+
+/-- the paragraph loop runs through items the last of which is a comment line; the INDENT token that
+    follows is then met where a key is expected -/
+theorem paraLoop_items_indent (is : List PItem) (R : List Tok)
+    (hne : ∀ i ∈ is, ∀ e, i = .entry e → ∀ c ∈ e.conts, c.text ≠ [])
+    (hterm : itemsTermT is R) (hR : IndentStart R) (hlast : endsComment is) :
+    "expected key" ∈ (paraLoop (itemsToks is ++ R)).errs := by
+  have hRne : R ≠ [] := by
+    obtain ⟨t, ts, rfl, _⟩ := indentStart_head hR; simp
+  induction is with
+  | nil => simp [endsComment] at hlast
+  | cons i is ih =>
+    cases is with
+    | nil =>
+      cases i with
+      | entry e => simp [endsComment, PItem.isComment] at hlast
+      | comment t nl =>
+        have hnl : nl = true := by
+          rcases hterm.1 with h | ⟨_, h⟩
+          · exact h
+          · exact absurd h hRne
+        subst hnl
+        simp only [itemsToks, PItem.toks, nlTok, List.map_cons, List.map_nil, List.flatten_cons,
+          List.flatten_nil, List.append_nil, ↓reduceIte, List.cons_append, List.nil_append]
+        rw [paraLoop_comment]
+        exact paraLoop_indent R hR
+    | cons j js =>
+      have hlast' : endsComment (j :: js) := by
+        simpa [endsComment, List.getLast?_cons_cons] using hlast
+      have hrec := fun ht => ih (fun x hx => hne x (by simp [hx])) ht hlast'
+      cases i with
+      | comment t nl =>
+        obtain ⟨h1, h2⟩ := hterm
+        have hnl : nl = true := by
+          rcases h1 with h | ⟨h, _⟩
+          · exact h
+          · simp at h
+        subst hnl
+        simp only [itemsToks_cons (.comment t true), PItem.toks, nlTok, ↓reduceIte, List.cons_append,
+          List.nil_append]
+        rw [paraLoop_comment]
+        exact hrec h2
+      | entry e =>
+        obtain ⟨h1, h2⟩ := hterm
+        have hne' := hne (.entry e) (by simp) e rfl
+        simp only [itemsToks_cons (.entry e), PItem.toks, List.append_assoc]
+        have hpe := parseEntry_entry e (itemsToks (j :: js) ++ R) hne' h1 (headNot_items_cons j js R)
+        rw [paraLoop_step' _ (by simp [EntryS.toks, endsParagraph]), hpe]
+        simp only [List.nil_append]
+        exact hrec h2
+
+/-- the last paragraph (if there is one) is followed by at least one blank / comment line (with
+    `parasTermR` the first of them is a blank line), or its last line is a comment line -/
+def parasClosed (ps : List (ParaS × List Gap)) : Prop :=
+  ∀ pg, ps.getLast? = some pg → pg.2 ≠ [] ∨ endsComment pg.1.rest
 
 theorem parasClosed_tail (pg q : ParaS × List Gap) (ps : List (ParaS × List Gap))
     (h : parasClosed (pg :: q :: ps)) : parasClosed (q :: ps) := by
   intro x hx
   exact h x (by rw [List.getLast?_cons_cons]; exact hx)
 
+theorem endsComment_cons (i : PItem) (is : List PItem) (h : endsComment is) : endsComment (i :: is) := by
+  cases is with
+  | nil => simp [endsComment] at h
+  | cons j js => simpa [endsComment, List.getLast?_cons_cons] using h
+
 /-- **the parser reports "expected key"** when an INDENT token follows a fully terminated document
-    prefix that does not end inside a paragraph -/
+    prefix whose last line is not a field or continuation line -/
 theorem rootLoop_indent (ps : List (ParaS × List Gap)) : ∀ (g0 : List Gap) (R : List Tok),
     IndentStart R → (∀ pg ∈ ps, pg.1.WF) → parasTermR ps → parasClosed ps →
     gapsTermT g0 (parasToks ps ++ R) →
@@ -92,14 +166,16 @@ theorem rootLoop_indent (ps : List (ParaS × List Gap)) : ∀ (g0 : List Gap) (R
       cases ps with
       | nil => exact hterm.1
       | cons q ps' => exact hterm.1
-    -- a blank line follows the paragraph
-    have hgshape : ∃ g', g = .blank :: g' := by
+    have hitems := para_termT p (gapsToks g ++ (parasToks ps ++ R)) hpt
+    have hgshape : (g = [] ∧ ps = [] ∧ endsComment p.rest) ∨ ∃ g', g = .blank :: g' := by
       cases ps with
       | nil =>
         rcases hterm.2.1 with h | h
-        · exact absurd h (hcl (p, g) (by simp))
-        · exact h
-      | cons q ps' => exact hterm.2.1
+        · rcases hcl (p, g) (by simp) with h' | h'
+          · exact absurd h h'
+          · exact Or.inl ⟨h, rfl, h'⟩
+        · exact Or.inr h
+      | cons q ps' => exact Or.inr hterm.2.1
     have hgterm : gapsTerm g true := by
       cases ps with
       | nil => exact hterm.2.2
@@ -112,15 +188,25 @@ theorem rootLoop_indent (ps : List (ParaS × List Gap)) : ∀ (g0 : List Gap) (R
       cases ps with
       | nil => intro x hx; simp at hx
       | cons q ps' => exact parasClosed_tail _ _ _ hcl
-    obtain ⟨g', hg'⟩ := hgshape
-    subst hg'
-    have hends : endsParagraph (gapsToks (Gap.blank :: g') ++ (parasToks ps ++ R)) = true := by
-      simp [gapsToks, Gap.toks, endsParagraph]
-    have hpl := paraLoop_para p true _ hp hpt (by simp) hends
-    rw [hpl]
-    simp only [List.nil_append]
-    apply ih (Gap.blank :: g') R hR (fun x hx => hwf x (by simp [hx])) hrest hcl'
-    exact gapsTermT_of _ true _ hgterm (by simp)
+    rcases hgshape with ⟨hg0, hps, hec⟩ | ⟨g', hg'⟩
+    · -- the line follows a comment line of the last paragraph: it is met inside that paragraph
+      subst hg0 hps
+      simp only [gapsToks, List.map_nil, List.flatten_nil, List.nil_append, parasToks] at hitems ⊢
+      have := paraLoop_items_indent (PItem.entry p.first :: p.rest) R (para_entries_ne p hp) hitems hR
+        (endsComment_cons _ _ hec)
+      simp only [itemsToks_cons, PItem.toks, List.append_assoc] at this
+      have hpt2 : p.toks ++ R = p.first.toks ++ (itemsToks p.rest ++ R) := by simp [ParaS.toks]
+      rw [hpt2]
+      exact List.mem_append_left _ this
+    · -- a blank line ends the paragraph; carry on with the rest of the document
+      subst hg'
+      have hends : endsParagraph (gapsToks (Gap.blank :: g') ++ (parasToks ps ++ R)) = true := by
+        simp [gapsToks, Gap.toks, endsParagraph]
+      have hpl := paraLoop_para p true _ hp hpt (by simp) hends
+      rw [hpl]
+      simp only [List.nil_append]
+      apply ih (Gap.blank :: g') R hR (fun x hx => hwf x (by simp [hx])) hrest hcl'
+      exact gapsTermT_of _ true _ hgterm (by simp)
 
 /-! ### the lexer on an orphan continuation line -/
 
@@ -147,11 +233,12 @@ theorem lex_orphan_start (l tail : Str) (ho : OrphanLine l) (he : LineEnd tail) 
   obtain ⟨ws, r, _, h⟩ := lex_orphan l tail ho he
   rw [h]; rfl
 
-/-! ### documents that do not end inside a paragraph -/
+/-! ### documents whose last line is not a field or continuation line -/
 
-/-- the document does not end inside a paragraph: it has no paragraph (blank / comment lines only,
-    possibly none), or its last paragraph is followed by at least one blank / comment line (the
-    first of which is a blank line, by `DocTermAll`) -/
+/-- the last line of the document is not a field or continuation line: the document has no
+    paragraph (blank / comment lines only, possibly none), or its last paragraph is followed by at
+    least one blank / comment line (the first of which is a blank line, by `DocTermAll`), or the last
+    line of its last paragraph is a comment line -/
 def ClosedEnd (d : DocS) : Prop := parasClosed d.paras
 
 /-- the blank / comment lines at the very end of the document -/
@@ -167,15 +254,16 @@ theorem EndsBlank.closed {d : DocS} (h : EndsBlank d) : ClosedEnd d := by
   intro pg hpg
   rcases h with ⟨_, h⟩ | h
   · rw [h] at hpg; simp at hpg
-  · intro he
+  · left
+    intro he
     simp only [lastGap, hpg, he] at h
     simp at h
 
 instance (d : DocS) : Decidable (EndsBlank d) := by unfold EndsBlank; exact inferInstance
 
-/-- **rejection**: an orphan continuation line after any well-formed, fully terminated document that
-    does not end inside a paragraph — whatever follows the line — makes the parser report
-    "expected key" -/
+/-- **rejection**: an orphan continuation line after any well-formed, fully terminated document whose
+    last line is not a field or continuation line — whatever follows the orphan line — makes the
+    parser report "expected key" -/
 theorem parse_orphan_line (d : DocS) (h : d.WF) (ha : DocTermAll d) (hc : ClosedEnd d) (l tail : Str)
     (ho : OrphanLine l) (he : LineEnd tail) :
     "expected key" ∈ (parse (d.str ++ (l ++ tail))).errors := by
